@@ -920,6 +920,33 @@ theorem M2M.updateFrom_data {s o : M2M α} (ho : o.WF) (a x : α) :
   show x ∈ getSet a (List.foldl _ s.data o.data) ↔ _
   rw [foldMerge_mem, ho.gd.exists_iff]
 
+/-- `x.update(x.inv)` keeps the invariant (loop 2 reads what loop 1 wrote) -/
+theorem selfMerge_wf {A : M2M α} (w : A.WF) : (selfMerge A).WF := by
+  have g1 : GoodDict (A.inv.foldl (fun d p => mergeKey p.1 p.2 d) A.data) := foldMerge_good w.gd _ w.gi.ne_of_mem
+  refine ⟨g1, foldMerge_good w.gi _ g1.ne_of_mem, ?_⟩
+  intro a b
+  show b ∈ getSet a (List.foldl _ A.data A.inv) ↔ a ∈ getSet b (List.foldl _ A.inv (List.foldl _ A.data A.inv))
+  rw [foldMerge_mem, foldMerge_mem, g1.exists_iff, w.gi.exists_iff, foldMerge_mem, w.gi.exists_iff]
+  have t1 := w.transpose a b
+  have t2 := w.transpose b a
+  constructor
+  · rintro (h | h)
+    · exact Or.inl (t1.1 h)
+    · exact Or.inr (Or.inl (t2.2 h))
+  · rintro (h | h | h)
+    · exact Or.inl (t1.2 h)
+    · exact Or.inr (t2.1 h)
+    · exact Or.inl (t1.2 h)
+
+theorem M2M.WF.updateFromReg {s o : M2M α} (h : s.WF) (ho : o.WF) (self side side2 : Bool) :
+    (s.updateFromReg o self side side2).WF := by
+  unfold M2M.updateFromReg
+  split
+  · split
+    · exact h
+    · exact (selfMerge_wf (h.side side)).side side
+  · exact ((h.side side).updateFrom (ho.side side2)).side side
+
 /-! replace -/
 
 theorem hasKey_put_same (v : α) (ws : List α) (d : Dict α (List α)) (b : α) (h : hasKey v d = true) :
@@ -1067,7 +1094,7 @@ theorem m2mCmd_wf {regs regs' : List (M2M α)} {c : M2MCmd α} {ret : Ret α}
     split at hc
     next s o hs ho =>
       injection hc with hc; injection hc with hc _; subst hc
-      exact h.set r ((((h.get hs).side side).updateFrom ((h.get ho).side side2)).side side)
+      exact h.set r ((h.get hs).updateFromReg (h.get ho) _ side side2)
     next => simp at hc
 
 theorem m2mRun_wf {regs regs' : List (M2M α)} (cs : List (M2MCmd α))
